@@ -123,6 +123,14 @@ void h_roundtrip(void)
 		ld(w, d, no); r_addw(t, w, n, 1);
 		if (!(r_wordsize(w, n) == 1 && w[0] == 1) && !r_eq(t, q, n))
 			V_ASSERT(bignKeyUnwrap(key2, P, token, 16 + no + klen, (flip & 64) ? header : 0, d) != ERR_OK, "altered token rejected");
+		/* short tokens: len < 32 + no is ERR_BAD_KEYTOKEN, and nothing outside the (exactly sized) key buffer is touched */
+		{
+			size_t tl = no + 16 + flip % 16; octet* tk = (octet*)v_alloc(tl); octet* kk = (octet*)v_alloc(tl - no - 16 ? tl - no - 16 : 1);
+			token[(flip / 8) % (16 + no + klen)] ^= (octet)(1 << (flip % 8));      /* restore the honest token: its prefix is a point of the curve */
+			memcpy(tk, token, tl);
+			V_ASSERT(bignKeyUnwrap(kk, P, tk, tl, 0, d) == ERR_BAD_KEYTOKEN, "token shorter than 32 + no octets rejected");
+			V_ASSERT(bignKeyWrap(token, P, keyd, 15, 0, Q, tape_rng, &tp) == ERR_BAD_INPUT, "key shorter than 16 octets rejected");
+		}
 		/* identity-based signatures */
 		{
 			octet idpriv[64], idpub[128], idsig[96], idhash[64];
